@@ -1,5 +1,6 @@
 //! Native replay of solver counterexamples against the real crate (public API only unless built with the `verif` hooks).
 //! usage: verif_replay <file.json>  -> prints one JSON object with the observations; exit 0 always unless the input is malformed.
+mod tree;
 use rspack_sources::*;
 use serde_json::{json, Value};
 use std::panic::{catch_unwind, AssertUnwindSafe};
@@ -47,7 +48,7 @@ fn decode(s: &str) -> Value {
   }
 }
 
-fn panic_msg(e: Box<dyn std::any::Any + Send>) -> String {
+pub fn panic_msg(e: Box<dyn std::any::Any + Send>) -> String {
   if let Some(s) = e.downcast_ref::<&str>() {
     s.to_string()
   } else if let Some(s) = e.downcast_ref::<String>() {
@@ -123,6 +124,7 @@ fn one(v: &Value) -> Value {
         Err(e) => json!({"panicked": true, "message": panic_msg(e)}),
       }
     }
+    "tree" => tree::observe(v),
     _ => json!({"error": format!("unknown family {}", fam)}),
   }
 }
